@@ -110,8 +110,8 @@ Notation active := (@active C E P).
 Notation sm := (@sm C E P).
 Notation db := (db C E P).
 Notation st := (st C E P).
-Notation prim := (prim C E P).
-Notation evolves := (evolves C E P).
+Notation prim := (prim C E P commit_of eval_of).
+Notation evolves := (evolves C E P commit_of eval_of).
 
 Definition rows_of (d : db) (k : N) (a : active) : Prop :=
   exists er cr, nget (db_eons _ _ _ d) k = Some er /\ nget (db_cfgs _ _ _ d) (eo_cfg er) = Some cr /\
@@ -155,43 +155,73 @@ Proof.
   apply N.eqb_eq in Q. subst eon. congruence.
 Qed.
 
+Lemma coh_set_dirty (d : db) (s : sm) eon a a' :
+  coh (d, s) -> nget (sm_dkg s) eon = Some a -> a_dirty a' = true ->
+  a_start a' = a_start a -> a_keypers a' = a_keypers a ->
+  coh (d, set_dkg C E P s eon a').
+Proof.
+  intros [Hc Ha Hr Hs] Hg Hd Hst Hk. simpl in *. constructor; simpl.
+  - intros k a0. destruct (N.eq_dec eon k) as [<-|Hne].
+    + rewrite nget_nins_same. intros [= <-]. congruence.
+    + rewrite nget_nins_other by exact Hne. apply Hc.
+  - intros k. destruct (N.eq_dec eon k) as [<-|Hne]; [rewrite nget_nins_same; discriminate|].
+    rewrite nget_nins_other by exact Hne. apply Ha.
+  - intros k a0. destruct (N.eq_dec eon k) as [<-|Hne].
+    + rewrite nget_nins_same. intros [= <-]. destruct (Hr _ _ Hg) as [er [cr [H1 [H2 [H3 H4]]]]].
+      exists er, cr. repeat split; congruence.
+    + rewrite nget_nins_other by exact Hne. apply Hr.
+  - apply nins_sorted. exact Hs.
+Qed.
+
+Lemma coh_db_frame (d d' : db) (s : sm) :
+  db_pure _ _ _ d' = db_pure _ _ _ d -> db_eons _ _ _ d' = db_eons _ _ _ d -> db_cfgs _ _ _ d' = db_cfgs _ _ _ d ->
+  coh (d, s) -> coh (d', s).
+Proof.
+  intros H1 H2 H3 [Hc Ha Hr Hs]. constructor; simpl in *.
+  - intros k a. rewrite H1. apply Hc.
+  - intros k. rewrite H1. apply Ha.
+  - intros k a Hk. destruct (Hr _ _ Hk) as [er [cr Hx]]. exists er, cr. rewrite H2, H3. exact Hx.
+  - exact Hs.
+Qed.
+
 Lemma prim_coh x y : prim x y -> coh x -> coh y.
 Proof.
-  destruct 1; intros [Hc Ha Hr Hs]; simpl in *.
-  - constructor; simpl; assumption.
-  - constructor; simpl; assumption.
-  - constructor; simpl; assumption.
-  - constructor; simpl; assumption.
-  - constructor; simpl; assumption.
-  - constructor; simpl; assumption.
-  - constructor; simpl; try assumption. intros k a Hk. eapply rows_cfg_add; [eassumption|eassumption|]. apply Hr. exact Hk.
-  - constructor; simpl; try assumption. intros k a Hk. eapply rows_cfg_started; [eassumption|eassumption|]. apply Hr. exact Hk.
-  - constructor; simpl; try assumption. intros k a Hk. eapply rows_eon_add; [eassumption|eassumption|]. apply Hr. exact Hk.
-  - constructor; simpl; assumption.
-  - (* update of an entry: it becomes dirty *)
-    constructor; simpl.
-    + intros k a0. destruct (N.eq_dec eon k) as [<-|Hne].
-      * rewrite nget_nins_same. intros [= <-]. simpl. discriminate.
-      * rewrite nget_nins_other by exact Hne. apply Hc.
-    + intros k. destruct (N.eq_dec eon k) as [<-|Hne]; [rewrite nget_nins_same; discriminate|].
-      rewrite nget_nins_other by exact Hne. apply Ha.
-    + intros k a0. destruct (N.eq_dec eon k) as [<-|Hne].
-      * rewrite nget_nins_same. intros [= <-]. destruct (Hr _ _ H) as [er [cr Hx]]. exists er, cr. exact Hx.
-      * rewrite nget_nins_other by exact Hne. apply Hr.
-    + apply nins_sorted. exact Hs.
-  - (* creation *)
-    constructor; simpl.
+  destruct 1; intros Hcoh.
+  - eapply coh_db_frame; [| | |exact Hcoh]; reflexivity.
+  - (* dealing starts: schedule + entry update *)
+    eapply coh_db_frame with (d := d); [reflexivity|reflexivity|reflexivity|].
+    eapply coh_set_dirty; [exact Hcoh|eassumption|reflexivity|reflexivity|reflexivity].
+  - eapply coh_db_frame; [| | |exact Hcoh]; reflexivity.
+  - eapply coh_db_frame; [| | |exact Hcoh]; reflexivity.
+  - eapply coh_db_frame; [| | |exact Hcoh]; reflexivity.
+  - eapply coh_db_frame; [| | |exact Hcoh]; reflexivity.
+  - eapply coh_db_frame; [| | |exact Hcoh]; reflexivity.
+  - eapply coh_db_frame; [| | |exact Hcoh]; reflexivity.
+  - eapply coh_db_frame; [| | |exact Hcoh]; reflexivity.
+  - eapply coh_db_frame; [| | |exact Hcoh]; reflexivity.
+  - destruct Hcoh as [Hc Ha Hr Hs]. constructor; simpl in *; try assumption.
+    intros k a Hk. eapply rows_cfg_add; [eassumption|eassumption|]. apply Hr. exact Hk.
+  - destruct Hcoh as [Hc Ha Hr Hs]. constructor; simpl in *; try assumption.
+    intros k a Hk. eapply rows_cfg_started; [eassumption|eassumption|]. apply Hr. exact Hk.
+  - destruct Hcoh as [Hc Ha Hr Hs]. constructor; simpl in *; try assumption.
+    intros k a Hk. eapply rows_eon_add; [eassumption|eassumption|]. apply Hr. exact Hk.
+  - (* a new eon with an instance *)
+    destruct Hcoh as [Hc Ha Hr Hs]. subst l. constructor; simpl in *.
     + intros k a0. destruct (N.eq_dec eon k) as [<-|Hne].
       * rewrite nget_nins_same. intros [= <-]. congruence.
       * rewrite nget_nins_other by exact Hne. apply Hc.
     + intros k. destruct (N.eq_dec eon k) as [<-|Hne]; [rewrite nget_nins_same; discriminate|].
       rewrite nget_nins_other by exact Hne. apply Ha.
     + intros k a0. destruct (N.eq_dec eon k) as [<-|Hne].
-      * rewrite nget_nins_same. intros [= <-]. exists er, cr. repeat split; assumption.
-      * rewrite nget_nins_other by exact Hne. apply Hr.
+      * rewrite nget_nins_same. intros [= <-]. exists er, cr. simpl.
+        rewrite (nget_app_none _ _ _ _ H0), N.eqb_refl. repeat split; assumption.
+      * rewrite nget_nins_other by exact Hne. intros Hk.
+        eapply (rows_eon_add d _ eon er k a0 eq_refl H0). apply Hr. exact Hk.
     + apply nins_sorted. exact Hs.
+  - destruct Hcoh as [Hc Ha Hr Hs]. constructor; simpl in *; assumption.
+  - eapply coh_set_dirty; [exact Hcoh|eassumption|reflexivity|reflexivity|reflexivity].
   - (* finalisation: the entry and the stored instance go together *)
-    constructor; simpl.
+    destruct Hcoh as [Hc Ha Hr Hs]. constructor; simpl in *.
     + intros k a0. destruct (N.eq_dec eon k) as [<-|Hne]; [rewrite nget_ndel_same; discriminate|].
       rewrite !nget_ndel_other by exact Hne. apply Hc.
     + intros k. destruct (N.eq_dec eon k) as [<-|Hne]; [intros _; apply nget_ndel_same|].
